@@ -37,7 +37,7 @@ CLAIMED = {
     "C12": dict(
         level="exploration", design="§6 C12",
         technique="deterministic simulation: the real AsyncWebsocketApp::run (poll loop, handler pool, front App, linked and unlinked) under the humsim scheduler with reference WebSocket clients, virtual-time poll intervals and heartbeat timeouts, partitioned (silent) peers, an external AsyncSender thread, shutdown signal",
-        text="Seeded scenarios of 1..8 clients (connect times, plain/unicast-requesting/broadcast-requesting messages incl. fragmented ones and bursts within one poll interval, pings, endings by Close / FIN / silence / staying), external unicasts and broadcasts, handler pools 1..8, poll 1..10 ms, heartbeat on/off, under seeded schedules. Oracle over the handler event log and each client's received frames: connect exactly once, every owed message dispatched exactly once, disconnect exactly once per closed client (Close frame or heartbeat timeout) and never for a live one, per-client order with a one-thread pool, unicast only to its addressee, broadcast never twice and exactly once to clients connected throughout, run returns within poll interval + 1 s of the shutdown signal. Later additions: no poll interval at all (fair schedules only), heartbeat timeouts of 1.5x and 2x the interval, slow-reading clients with 3..60 KB external messages, clients that close their socket outright (server writes then fail), a close landing on the heartbeat deadline, client pairs sharing an IP, per-run iteration order of the streams map. Also: a burst of 1200 messages in one write under a tight heartbeat.",
+        text="Seeded scenarios of 1..8 clients (connect times, plain/unicast-requesting/broadcast-requesting messages incl. fragmented ones and bursts within one poll interval, pings, endings by Close / FIN / silence / staying), external unicasts and broadcasts, handler pools 1..8, poll 1..10 ms, heartbeat on/off, under seeded schedules. Oracle over the handler event log and each client's received frames: connect exactly once, every owed message dispatched exactly once, disconnect exactly once per closed client (Close frame or heartbeat timeout) and never for a live one, per-client order with a one-thread pool, unicast only to its addressee, broadcast never twice and exactly once to clients connected throughout, run returns within poll interval + 1 s of the shutdown signal. Later additions: no poll interval at all (fair schedules only), heartbeat timeouts of 1.5x and 2x the interval, slow-reading clients with 3..60 KB external messages, clients that close their socket outright (server writes then fail), a close landing on the heartbeat deadline, client pairs sharing an IP, per-run iteration order of the streams map. Also: a burst of 1200 messages in one write under a tight heartbeat. One silent ending in twenty happens in the middle of a message: that is the open known finding C12/R8 (the check prints KNOWN-FINDING and exits 0).",
         note="Trusted: humsim scheduler/clock/TCP; iteration order of the streams map keyed per run from the entropy stream; a spinning poll loop (no interval) only under fair schedules; ordering asserted strictly only with one handler thread; messages of a client that closed its socket outright are owed at most once."),
     "C16": dict(
         level="exploration", design="§6 C16",
